@@ -433,7 +433,7 @@ pub fn run(ctx: &mut Ctx) {
     ctx.rule("case = one reference transaction on a git-made repository (loose/packed/stale-packed refs, symbolic HEAD, nested names) x EVERY filesystem-mutating syscall index of its commit as SIGKILL point; distinct = (syscall kind at the kill point, file class it touches, transaction shape)");
     ctx.assume("crash = process death between syscalls (strace kills the worker on entry of its k-th mutating syscall); torn single writes and power loss are not modelled");
     ctx.assume("atomicity is demanded per reference (the API documents multi-ref commits as non-atomic)");
-    let exe = std::env::current_exe().expect("exe");
+    let exe = crate::fw::self_exe().expect("exe");
     if !Path::new("/usr/bin/strace").exists() {
         ctx.inconclusive("strace not available");
         return;
